@@ -108,9 +108,15 @@ class Clause:
     check: callable                    # case -> Out
     strategy: callable = None          # tier -> hypothesis strategy   (generated clause)
     enumerate: callable = None         # tier -> list of cases         (exhaustive clause)
+    machine: callable = None           # (tier, hooks) -> RuleBasedStateMachine class (stateful clause); the machine
+                                       # records its history as a plain case and calls hooks.after_step(case, out)
+                                       # after every step and hooks.done(case, out) in teardown; `check` replays a
+                                       # recorded history without Hypothesis
+    steps: int = 8                     # stateful_step_count
     budget: dict = field(default_factory=lambda: {"quick": 100, "thorough": 1000})
     max_shards: int = 16
     min_per_shard: int = 10
+    shrink: bool = True                # thorough tier: let Hypothesis shrink (disable for very expensive checks)
     doc: str = ""
 
 
